@@ -35,14 +35,15 @@ PROPERTIES = {
         "wall_cap": {"quick": 150.0, "thorough": 3000.0},
         "rule": "seeded histories of 1-12 operations (new/drop executor, translate [python-AST or qastle wire; plain or "
                 "LocalDataset-style], translate with injected I/O error at the k-th write-phase call, translate aborted at the "
-                "n-th line inside /repo) on one process; every fault-free translation is compared, after exact name "
+                "n-th line inside /repo, first phase only (apply_ast_transformations, package never asked for)) on one process; every fault-free translation is compared, after exact name "
                 "normalisation, with the same query translated alone in a fresh process. A history is non-trivial when a "
                 "compared translation follows at least one earlier translation; distinct = distinct (sequence of (query "
                 "name, metadata names, outcome class, fault fired, slot kind)) tuples.",
         "real_vs_stub": REAL_VS_STUB,
         "assumptions": [
-            "a fresh forked child of a process that imported func_adl_xAOD but never built an executor stands for a fresh "
-            "interpreter (cross-checked against a real fresh interpreter by selftest)",
+            "a fresh forked child of a process that has done `import func_adl_xAOD` (and nothing else of the package: lazily "
+            "imported backends and modules are imported by the history / the reference when first needed) and never built an "
+            "executor stands for a fresh interpreter",
             "injected aborts never land while reset()/define_default_* is on the stack",
             "queries/metadata come from finite pools (sim/svc/pools.py); histories are sampled, not enumerated",
         ],
@@ -192,7 +193,7 @@ def make_case(prop, tier, seed, i):
         "backends": backends,
         "p_reuse": rng.choice([0.0, 0.3, 0.7, 1.0]),
         "p_fault": rng.choice([0.0, 0.0, 0.15, 0.35]),
-        "fault_kinds": rng.sample(["io", "abort", "tmpl_missing"], rng.choice([1, 2, 3])),
+        "fault_kinds": rng.sample(["io", "abort", "tmpl_missing", "apply_only"], rng.choice([1, 2, 3])),
         "p_ld": rng.choice([0.0, 0.0, 0.2, 0.6]),
         "md_rate": rng.choice([0.2, 0.5, 0.7]),
         "p_mismatch": rng.choice([0.0, 0.05]),
@@ -275,6 +276,8 @@ def make_case(prop, tier, seed, i):
                 op["fault"] = {"kind": "io", "frac": rng.random(), "errno": rng.choice(["ENOSPC", "EIO", "EACCES"])}
             elif kind == "tmpl_missing":
                 op["fault"] = {"kind": "tmpl_missing"}
+            elif kind == "apply_only":
+                op["fault"] = {"kind": "apply_only"}
             else:
                 op["fault"] = {"kind": "abort", "frac": rng.random(), "wide": rng.random() < 0.4,
                                "exc": weighted(rng, [("RecursionError", 6), ("MemoryError", 3), ("KeyboardInterrupt", 1)])}
@@ -316,6 +319,10 @@ def make_case(prop, tier, seed, i):
                 pos = len(q["steps"]) - 1 if q["steps"][-1][0] == "AsROOTTTree" else rng.randrange(len(q["steps"]) + 1)
                 q["md"] = q["md"] + [[pos, pools.METADATA[m][0]]]
                 q["md_names"] = q["md_names"] + [m]
+        if rng.random() < 0.4:
+            # ... and the last one is an ordinary translation on the kept executor (nobody registered the extended metadata
+            # type for it): whether it knows 'docker' metadata must not depend on the LocalDataset-style ones before it
+            tr[-1]["ld"] = False
         cfg["focus_ext_md"] = True
     return {"engine": NAME, "prop": prop, "seed": seed, "run": i, "cfg": cfg, "ops": ops}
 
@@ -398,12 +405,17 @@ def _history_child(case, refs):
                 tm = xlate.TemplateDirMissing() if f and f["kind"] == "tmpl_missing" else None
                 n_streams = len(streams)
                 got = xlate.translate(exe, q, d, ld=op["ld"], io_plan=io_plan, abort_plan=ab, extra_seam=tm,
-                                      stream_cache=streams if op.get("share") else None)
+                                      stream_cache=streams if op.get("share") else None,
+                                      apply_only=bool(f and f["kind"] == "apply_only"),
+                                      wipe_registries_after=bool(f and f.get("wipe_registries")))
                 if op.get("share") and q["wire"] == "ast" and n_streams and len(streams) == n_streams:
                     bump("reach:same_query_object_translated_again")
                 elif op.get("share") and q["wire"] == "ast" and n_streams:
                     bump("reach:query_built_on_shared_base")
                 fired = None
+                if got["outcome"] == "abandoned":
+                    fired = "apply_only"
+                    bump("fault:abandoned_after_first_phase")
                 if tm is not None and tm.fired:
                     fired = "tmpl_missing"
                     bump("fault:template_dir_not_found")
@@ -436,7 +448,7 @@ def _history_child(case, refs):
                                       "detail": f"op {idx} query {q['name']} md {q['md_names']} "
                                                 f"({'kept executor' if kept else 'fresh executor'}): {diff}"})
                 else:
-                    if got["outcome"] != "raise":
+                    if got["outcome"] not in ("raise", "abandoned"):
                         rec["note"] = "fault fired but translation returned"
                         bump("fault_survived")
                     if f["kind"] == "io" and got["outcome"] == "ok":
@@ -608,8 +620,22 @@ def execute(case):
         if op["op"] == "translate":
             f = op.get("fault")
             refs[idx] = reference(op["backend"], op["query"], op["ld"], count_lines=bool(f and f["kind"] == "abort"))
-    # guard the normaliser: the same probe twice in fresh processes must agree with itself
-    return isolate.call_isolated(_history_child, (case, refs), timeout=CASE_TIMEOUT)
+    res = isolate.call_isolated(_history_child, (case, refs), timeout=CASE_TIMEOUT)
+    if res["violations"] and any((op.get("fault") or {}).get("kind") == "apply_only" for op in case["ops"]):
+        # Attribution for the recorded finding K4 (known_findings.json): the same history once more, but the two
+        # process-wide registries are emptied right after every abandoned first phase. If nothing differs any more, the
+        # difference comes from exactly what K4 describes; if something still differs, it is something else and is
+        # reported as an ordinary violation.
+        c2 = copy.deepcopy(case)
+        for op in c2["ops"]:
+            if (op.get("fault") or {}).get("kind") == "apply_only":
+                op["fault"]["wipe_registries"] = True
+        r2 = isolate.call_isolated(_history_child, (c2, refs), timeout=CASE_TIMEOUT)
+        if not r2["violations"]:
+            for v in res["violations"]:
+                v["attributed"] = "registries-after-abandoned-first-phase"
+            res["stats"]["reach:violation_attributed_to_recorded_finding_K4"] = 1
+    return res
 
 
 # ------------------------------------------------------------------ shrinking, signatures
@@ -682,7 +708,12 @@ def shrink(case, fails):
     return with_ops(ops)
 
 
+K4_SIGNATURE = "C07:probe-differs:registries-after-abandoned-first-phase"
+
+
 def signature(case, v):
+    if v.get("attributed") == "registries-after-abandoned-first-phase":
+        return K4_SIGNATURE
     if case["prop"] == "C02":
         return f"C02:{v['invariant']}:{case['backend']}:{'fault' if v.get('k') is not None else 'nofault'}"
     shape = []
